@@ -291,7 +291,7 @@ fn run(sh: &mut Shard) {
         }
     }
     // (1) sequences with every separator choice
-    let seps_all = ["", " ", "\n", " // c\n"];
+    let seps_all = ["", " ", "\n", " // c\n", " //é€😀\n"];
     let maxlen = 3;
     let core: Vec<&str> = if tier == Tier::Quick { vec![] } else { vec!["als", "a", "alsof", "1", "1.5", "\"s\"", "=", "==", "<", "<=", "!", "!=", "/", "-", "(", ")", ".", "&&", ";", "ja"] };
     let mut plans: Vec<(Vec<&str>, usize)> = vec![(vocab.clone(), maxlen)];
